@@ -76,7 +76,9 @@ def handle (sx : Sexp) : String :=
      | _, _ => "(bad-args)")
   | .list [.atom "staticlen", desc] =>
     (match parseComposite desc with
-     | some (bs, ps) => (match (Dop.struct bs ps).staticBitLen with | some n => s!"(some {n})" | none => "(none)")
+     | some (bs, ps) =>
+       if !paramsSupported ps then "(unsupported)"
+       else (match (Dop.struct bs ps).staticBitLen with | some n => s!"(some {n})" | none => "(none)")
      | none => "(bad-args)")
   | .list (.atom "prefix" :: desc :: rest) =>
     (match parseComposite desc with
